@@ -27,7 +27,7 @@ Singles(part) ==
   ELSE {<<<<NDef(id, a, 0)>>, 0, 0>> : id \in IdsOfLen(part - 1), a \in Attrs}
 
 (* attribute-exhaustive ordered pairs over a small ID set: shared prefixes and an equal XOR fold *)
-IA == IF Thorough THEN {<<>>, <<0>>, <<0, 1>>, <<0, 0, 0, 0>>, <<0, 0, 0, 0, 1>>, <<1, 0, 0, 0, 0>>, <<0, 1, 0, 0, 0, 1, 0>>}
+IA == IF Thorough THEN {<<>>, <<0>>, <<0, 1>>, <<0, 0, 0, 0, 1>>, <<1, 0, 0, 0, 0>>, <<0, 1, 0, 0, 0, 1, 0>>}
       ELSE {<<>>, <<0, 0, 0, 0, 1>>, <<1, 0, 0, 0, 0>>}
 PairsAttr(i1) == {<<<<NDef(i1, a1, 0), NDef(i2, a2, 0)>>, 0, 0>> : i2 \in IA, a1 \in Attrs, a2 \in Attrs}
 
@@ -67,9 +67,11 @@ ScanDefs(u) ==
 TripleAttrs == {<<A0, A0, A0>>, <<<<<<"u", 16>>, 8>>, <<<<"u", ANY>>, 8>>, <<<<"r", ANY>>, 8>>>>}
 ThirdOf(a) == {SubSeq(a, 1, Len(a) \div 2), Mutate(a, Len(a))}
               \cup (IF FoldPartners(a) = {} THEN {} ELSE {CHOOSE x \in FoldPartners(a) : TRUE})
+RelatedT(id) == {SubSeq(id, 1, k) : k \in 0..(Len(id) - 1)} \cup FoldPartners(id) \cup {id}
+                \cup (IF Len(id) < MaxLen THEN {id \o <<b>> : b \in Bits} ELSE {})
 TriplesId(len, bit) ==
   UNION {{<<<<NDef(a, at[1], 0), NDef(b, at[2], 0), NDef(c, at[3], 0)>>, 0, 0>> :
-          b \in Related(a), c \in ThirdOf(a), at \in TripleAttrs}
+          b \in RelatedT(a), c \in ThirdOf(a), at \in TripleAttrs}
          : a \in {x \in IdsOfLen(len) : x[1] = bit}}
 PairsIdBit(len, bit) == UNION {{<<<<NDef(a, ap[1], 0), NDef(b, ap[2], 0)>>, 0, 0>> : b \in Related(a), ap \in AttrPairs}
                                : a \in {x \in IdsOfLen(len) : x[1] = bit}}
@@ -119,7 +121,7 @@ ShardNames ==
   {<<"single", k>> : k \in 0..(MaxLen + 1)} \cup {<<"pairattr", k>> : k \in 1..Cardinality(IA)}
   \cup {<<"pairid", k>> : k \in 0..(MaxLen - 1)} \cup {<<"pairidlong", b>> : b \in Bits}
   \cup {<<"chain", 0>>, <<"cond", 0>>, <<"scan", 0>>}
-  \cup (IF Thorough THEN {<<"tripleid", 2 * k + b>> : k \in 4..MaxLen, b \in Bits} \cup {<<"rand", k>> : k \in 1..16} ELSE {})
+  \cup (IF Thorough THEN {<<"tripleid", 2 * k + b>> : k \in 5..MaxLen, b \in Bits} \cup {<<"rand", k>> : k \in 1..16} ELSE {})
 IASeq == SetToSeq(IA)
 ShardCases(s) ==
   CASE s[1] = "single"   -> Singles(s[2])
